@@ -2,7 +2,7 @@
    Statements only; proofs in Proofs/C09.v, model in Model/C09.v.  [gen] is the oracle that turns one
    component into data; every statement holds for every such oracle and every commutative ring. *)
 From Coq Require Import ZArith List Bool QArith.
-From QV Require Import Base.Alg Model.C09 Proofs.C09.
+From QV Require Import Base.Alg Model.C09 Proofs.C09 Proofs.C09gen.
 Import ListNotations.
 
 (* the constructor builds the sum of its components' data and reorganisation energies *)
@@ -53,6 +53,28 @@ Theorem c09_inplace_addition : forall (R : StarRing) gen io,
        lamb r = radd R (suml (@clam R) cs) (suml (@clam R) cs) /\ comps r = cs ++ cs).
 Proof. intros R gen io. split; [exact (iadd_spec io)|exact (iadd_self_doubles gen io)]. Qed.
 Print Assumptions c09_inplace_addition.
+
+(* spectral densities (spectraldensities.py: add_to_data / add_to_data2 carry no temperature test): a + b for a left
+   operand that its constructor rebuilds from its parameters, and x += x *)
+Theorem c09_spectral_density_add_is_linear : forall (R : StarRing) (sdctor : list (@comp R) -> option (@cf R)) (a b : @cf R),
+  sdctor (comps a) = Some a ->
+  sd_add sdctor a b = Some (mkCf (comps a ++ comps b) (radd R (lamb a) (lamb b)) (temp a) (cutoff a) (radd R (data a) (data b))) /\
+  sd_iadd_self sdctor a = Some (mkCf (comps a ++ comps a) (radd R (lamb a) (lamb a)) (temp a) (cutoff a) (radd R (data a) (data a))).
+Proof. intros R sdctor a b H. split; [exact (sd_add_spec sdctor a b H)|exact (sd_iadd_self_spec sdctor a H)]. Qed.
+Print Assumptions c09_spectral_density_add_is_linear.
+
+(* the constructor as the code writes it (static tie, harness/translate_c09.py): the skeleton of __init__'s dispatch loop
+   equals the model's constructor as soon as the family is read from the loop's own component, every maker receives the
+   loop's own component and does the bookkeeping "data, reorganisation energy, then temperature / cut-off" *)
+Theorem c09_constructor_skeleton : forall (R : StarRing) gen n lam0 t0 c0 d0 fam arg mk,
+  lam0 = r0 R -> t0 = None -> c0 = 0%Q -> d0 = r0 R ->
+  (forall own stale : @comp R, fam own stale = ftype own) ->
+  (forall f (own stale : @comp R), (f < n)%nat -> arg f own stale = own) ->
+  (forall f (o : @cf R) c d, (f < n)%nat ->
+     mk f o c d = set_tc (mkCf (comps o) (radd R (lamb o) (clam c)) (temp o) (cutoff o) (radd R (data o) d)) (ctemp c) (ccut c)) ->
+  forall cs, known n cs -> ctor_skel gen lam0 t0 c0 d0 fam arg mk cs = ctor gen OwnFtype cs.
+Proof. intros R gen. exact (ctor_skel_is_model gen). Qed.
+Print Assumptions c09_constructor_skeleton.
 
 (* the two defects of the pinned tree *)
 Theorem c09_stale_dispatch_refuted : exists (gen : nat -> @comp ZR -> ZR) cs,
